@@ -301,12 +301,9 @@ Proof.
       as (Fr & Im & Ob).
     assert (S : sstep (w_store w) (w_store w1) (w_lockhist w)).
     { eapply upload_sstep; [exact E| | |]; [|intros _; split; assumption|intros _; exact Fr].
-      destruct Fr as [(a & _ & _ & _ & _ & _ & Ek & _)|Fr']; [rewrite Ek, kclass_tpath; discriminate|].
-      destruct Ob as [b Ob]. destruct Fr' as [(? & ? & ? & _ & _ & X & _)|[[_ (? & ? & X & _)]|_]];
-        try (rewrite Ob in X; discriminate). intro X.
-      destruct Hx3 as (ups0 & B0 & Sub & _). destruct (Sub u Hu) as (_ & u0 & H0 & K1 & _).
+      pose proof Hx3 as (ups0 & B0 & Sub & _). destruct (Sub u Hu) as (_ & u0 & H0 & K1 & _).
       destruct (bundle_in _ _ _ _ _ B0 H0) as (a & pre & _ & _ & ->). cbn [u_key TilesProofs.tup] in K1.
-      rewrite <- K1, kclass_tpath in X. discriminate. }
+      rewrite <- K1, kclass_tpath. discriminate. }
     pose proof S as [Ex _].
     pose proof (applying_step _ _ _ _ _ _ _ _ _ _ _ _ Hx3 Et (upload_store _ _ _ _ _ _ _ _ _ E) Ex) as A'.
     destruct rest as [|u' rest'].
